@@ -16,6 +16,7 @@ var Checks = map[string]func(*Env) int{
 	"C20": CheckC20,
 	"C11": CheckC11,
 	"C12": CheckC12,
+	"C13": CheckC13,
 }
 
 // Replay re-runs a saved replay bundle against the current tree.
